@@ -14,9 +14,28 @@ PROP = {
                    "exist and nothing that existed changes; a container's calls touch only its own pool and blocks; move construction / move "
                    "assignment / swap carry pool and blocks along; every live block is held by a container attached to the pool it came from; "
                    "use_count = attached containers and allocator objects; a pool without owners is dead with nothing outstanding at the base "
-                   "allocator; freeing an owned block and the final destructor call always succeed. The model is executable: the real "
+                   "allocator; freeing an owned block and the final destructor call always succeed. FAILING BASE ALLOCATOR (fault = explicit "
+                   "operation of the history, so every placement of bad_alloc is covered): an allocate that throws changes nothing - blocks, "
+                   "holders, counts, owner counts, every other pool, control blocks and raw blocks are untouched, nothing is obtained from the base "
+                   "allocator - except that an idle pool asked for a single object of another type has already been re-parameterised (line 119) and "
+                   "has returned its buffers; all invariants, the provenance theorem, blocks-follow-their-pool and the leak-freedom theorems (pool "
+                   "without owners: dead, nothing outstanding; everything destroyed: ledger empty) hold for all histories with faults, including "
+                   "container calls that throw half way and copy constructions that throw. DECISION LOGIC for value types of EVERY size and "
+                   "alignment (over-aligned included): exact condition for allocate (pool iff n = 1 and (parameters equal or pool idle)) and "
+                   "deallocate (MemPool::Deallocate iff n = 1 and parameters equal the pool's CURRENT parameters; an error exactly when that is "
+                   "not where the block came from); closed form of pvGetMemPoolParams (alignment min(alignof, maxAlignment); size sizeof, or "
+                   "2*alignment when sizeof = alignment and N > 1) and the exact condition under which two value types have equal pool parameters; "
+                   "the pool object created by the re-parameterisation passes every MOMO_CHECK of pvCheckParams for every value type. TRAITS: the "
+                   "four traits as extracted (POCCA false, POCMA true, POCS true, is_always_equal false) and what the standard prescribes under "
+                   "exactly these: copy assignment keeps every pool and touches only the target's, swap and move assignment are defined for "
+                   "unequal allocators and need no allocation. SAME NODE TYPE: histories (with faults) whose successful single-object requests all "
+                   "have the same pool parameters never serve a single object raw and never record a provenance error, however the containers "
+                   "share one allocator object; splice between containers sharing a pool is legal, nodes migrate and their new holder frees them "
+                   "into the pool. The model is executable: the real "
                    "unsynchronized_pool_allocator under std::list / forward_list / map / set / multimap / multiset / unordered_* is compared with it "
-                   "call by call (pointers, parameters, counts, owner counts, every base-allocator call) on every run."),
+                   "call by call (pointers, parameters, counts, owner counts, every base-allocator call) on every run, also with a base "
+                   "allocator that throws at the k-th request (allocator level for every N = 1..32 with over-aligned value types; container level "
+                   "against twins whose std-style allocator throws at the same allocate call)."),
     "level_note": ("Trusted: Lean kernel, the three standard axioms, extractor, correspondence harness. 'Behaves exactly as with std::allocator' "
                    "(contents of libstdc++'s containers) is differential evidence against std::allocator twins, not a theorem. MemPool is C09's: in "
                    "the theorems it is the component 'parameters, count, buffers held, the destructor / re-parameterisation returns every buffer'; "
@@ -24,7 +43,12 @@ PROP = {
                    "The container layer models what [container.requirements.general] prescribes for an allocator-aware container with the "
                    "propagation traits extracted from pool_allocator.h; libstdc++ itself is the environment (which blocks a call allocates / frees "
                    "is an input). Histories that break a C++ precondition (double free, foreign allocator, splice between unequal allocators) "
-                   "end with Err.illegal and are outside the statements."),
+                   "end with Err.illegal and are outside the statements. Faults: C09's theorem 'MemPool::Allocate that throws leaves the pool "
+                   "unchanged and has made no successful request' is the contract used for line 123; the driver re-checks with C09's executable pool "
+                   "that a request reported as failed really reaches the base allocator. Trait combinations other than the extracted one cannot "
+                   "occur: the three typedefs are fixed by the header, T1 re-reads them (and that there is no second declaration, no "
+                   "is_always_equal, one shared_ptr member) on every run, and C20_traits_as_extracted stops building when one of them changes; the "
+                   "bodies of allocate / deallocate / pvIsEqual / pvGetMemPoolParams / select_on_container_copy_construction are T1 shapes."),
     "modules": ["Momo.Props.C20"],
     "theorems": [
         "Momo.PoolAlloc.C20_dealloc_provenance",
@@ -42,6 +66,35 @@ PROP = {
         "Momo.PoolAlloc.C20_last_owner_returns_all",
         "Momo.PoolAlloc.C20_all_destroyed_ledger_empty",
         "Momo.PoolAlloc.C20_destructor_drop_succeeds",
+        # failing base allocator
+        "Momo.PoolAlloc.C20_failed_allocate_changes_nothing",
+        "Momo.PoolAlloc.C20_fault_dealloc_provenance",
+        "Momo.PoolAlloc.C20_fault_dealloc_provenance_no_raw_single",
+        "Momo.PoolAlloc.C20_fault_free_histories",
+        "Momo.PoolAlloc.C20_fault_container_alloc_fail",
+        "Momo.PoolAlloc.C20_fault_dealloc_provenance_containers",
+        "Momo.PoolAlloc.C20_fault_blocks_follow_their_pool",
+        "Momo.PoolAlloc.C20_fault_last_owner_returns_all",
+        "Momo.PoolAlloc.C20_fault_all_destroyed_ledger_empty",
+        "Momo.PoolAlloc.C20_fault_cleanup_succeeds",
+        "Momo.PoolAlloc.C20_fault_container_touches_only_own_pool",
+        "Momo.PoolAlloc.C20_fault_copy_construct_control_block_fail",
+        # decision logic for value types of every size and alignment
+        "Momo.PoolAlloc.C20_allocate_route",
+        "Momo.PoolAlloc.C20_deallocate_route",
+        "Momo.PoolAlloc.C20_pool_params_closed_form",
+        "Momo.PoolAlloc.C20_same_pool_parameters_iff",
+        "Momo.PoolAlloc.C20_overaligned_value_types",
+        "Momo.PoolAlloc.C20_reparameterisation_params_valid",
+        # propagation traits as extracted, std-mandated behaviour under exactly these
+        "Momo.PoolAlloc.C20_traits_as_extracted",
+        "Momo.PoolAlloc.C20_copy_assign_keeps_pools",
+        "Momo.PoolAlloc.C20_swap_defined_for_unequal_allocators",
+        "Momo.PoolAlloc.C20_move_assign_defined_for_unequal_allocators",
+        # allocator objects shared by containers of the same node type
+        "Momo.PoolAlloc.C20_same_node_type_sharing",
+        "Momo.PoolAlloc.C20_same_node_type_sharing_no_faults",
+        "Momo.PoolAlloc.C20_shared_pool_splice_migrates",
     ],
     "harnesses": [
         {"name": "c20_direct", "src": "c20_direct.cpp", "sanitize": "asan", "flags": _FLAGS},
@@ -52,6 +105,10 @@ PROP = {
         {"name": "c20_mtree", "src": "c20_mtree.cpp", "sanitize": "asan", "flags": _FLAGS},
         {"name": "c20_hash", "src": "c20_hash.cpp", "sanitize": "asan", "flags": _FLAGS},
         {"name": "c20_mhash", "src": "c20_mhash.cpp", "sanitize": "asan", "flags": _FLAGS},
+        {"name": "c20_fault", "src": "c20_fault.cpp", "sanitize": "asan", "flags": _FLAGS},
+        {"name": "c20_fault1b", "src": "c20_fault1b.cpp", "sanitize": "asan", "flags": _FLAGS},
+        {"name": "c20_fault2", "src": "c20_fault2.cpp", "sanitize": "asan", "flags": _FLAGS},
+        {"name": "c20_fault3", "src": "c20_fault3.cpp", "sanitize": "asan", "flags": _FLAGS},
     ],
     "rule": ("Container histories (c20_seq/fwd/tree/mtree/hash/mhash): per container kind x element type x MemPoolParams<N, C> one world of 4 container "
              "slots and 2 allocator objects; random calls: default / copy / move construction, construction from an allocator object or another "
@@ -63,16 +120,33 @@ PROP = {
              "arrays of three out of five value types (4/4, 24/8, 40/8, 16/16, 3/1 bytes/alignment) through allocator objects that share pools by "
              "rebinding, with re-parameterisation of idle pools. A single object is never requested from a pool busy with another type (that is the "
              "F13 pattern); the exact F13 history runs in two dedicated, tagged cases (f13a, f13b). distinct_nontrivial counts histories "
-             "(kind x element x N x C x round); evaluations counts container-level calls and allocator-level calls of the direct suites."),
+             "(kind x element x N x C x round); evaluations counts container-level calls and allocator-level calls of the direct suites. "
+             "Fault suites: c20_fault / c20_fault1b = the allocator-level histories again for EVERY N = 1..32 with value types 4/4, 24/8, 40/8, "
+             "16/16, 3/1, 24/4 (block size of 24/8, other alignment) and the over-aligned 64/32, 32/32 (same pool parameters as 16/16 when N > 1), 128/64; about every third allocate and "
+             "every fifth constructor runs with the base allocator armed to throw bad_alloc at its next request (trace ops allocfail / anewfail; "
+             "the model checks with C09's pool that the request reaches the base allocator). c20_fault2 / c20_fault3 = container histories "
+             "(list, forward_list, set, map, multimap, unordered_map / set / multiset; pools with 1..5 blocks per buffer) in which 2 of 5 element "
+             "calls, 3 of 5 copy constructions, every second copy assignment and every third construction of an allocator object run with the "
+             "base allocator armed to throw at its 1st..3rd next request; the twin's std-style allocator throws at the same allocate call of the "
+             "same container call; compared: both throw or neither, answers, contents, and the pool's bookkeeping against the model "
+             "(cont ops mutateF / copyAssignF / copyConstructF / copyConstructNewFail / newAllocFail). Request 0 of a copy construction is the "
+             "control block allocated inside select_on_container_copy_construction: it must surface as a catchable bad_alloc that changes nothing "
+             "(regression test of the repaired noexcept, counter fault.inside_select_on_copy_caught; the allocator-level fault suites call "
+             "select_on_container_copy_construction directly, armed every second time); a std::terminate is a FAIL (terminate handler)."),
     "runtime_only": [
         "contents of the containers equal to the std::allocator twins after every call, and equal answers of the calls (differential)",
         "ASan + UBSan: the base allocator's arena is poisoned except for blocks it currently lends out, so any access to returned memory aborts",
         "pattern bytes of live blocks intact (allocator-level suites), pointers aligned and inside lent-out memory",
+        "std containers under a throwing base allocator: only 'throws iff the twin throws at the same allocate call', answers and contents are compared (the exception guarantees of the container operations are libstdc++'s)",
+        "over-aligned value types: a pointer not aligned to min(alignof(T), maxAlignment) is an ordinary FAIL; pointers aligned to that but not for T are the open known finding F29: counted (overaligned.pointer_not_aligned_for_value_type) and reported once per run with the tag known-F29 and the concrete numbers; over-aligned ELEMENT types under std containers are not run (libstdc++'s node accesses would be misaligned: UBSan aborts)",
     ],
     "not_modelled": [
         "libstdc++'s containers (environment): which blocks a call allocates / frees is taken from the run; their contents are compared with twins only",
         "MemPool internals are C09's model (used by the driver); the C20 theorems assume its contract 'all buffers returned when allocCount == 0'",
-        "failing base allocator (bad_alloc) inside allocate; over-aligned value types (alignment > 16); construct / destroy (ObjectManager) beyond the twin comparison",
-        "move assignment / swap with traits other than the extracted ones (POCCA=false, POCMA=true, POCS=true): the model marks them unmodelled",
+        "construct / destroy (ObjectManager) beyond the twin comparison; exceptions thrown by element constructors",
+        "std::length_error of MemPool::pvCheckParams for blockSize > maxSize / blockCount (value types of > 2^63 / N bytes); allocate(0); overflow of count * sizeof(value_type)",
+        "bad_alloc from anything but the base allocator",
+        "the address arithmetic that would show WHICH pointers of an over-aligned type are misaligned (the model states the alignment the pool and the memory manager work with: C20_overaligned_value_types)",
+        "trait combinations other than the extracted one (POCCA=false, POCMA=true, POCS=true, is_always_equal=false) are kept out on purpose: the typedefs are fixed by the header, re-extracted on every run together with 'no second declaration', and C20_traits_as_extracted fails to build when they change; the cstep branches for other values are dead code under that theorem",
     ],
 }
